@@ -1060,6 +1060,10 @@ class Engine:
             raise Unsupported("symbolic substring test")
         if isinstance(container, SList):
             j = fresh("j", I)
+            if getattr(container, "window", None) is not None:
+                # x in L[a:b]  <=>  some position of L inside the window holds x  (same statement; no offset arithmetic under the quantifier)
+                base, lo = container.window
+                return z3.Exists([j], z3.And(lo <= j, j < lo + container.n, self.eq(container.mk(base[j]), x, st)))
             return z3.Exists([j], z3.And(0 <= j, j < container.n, self.eq(container.mk(container.el[j]), x, st)))
         if isinstance(container, RefsDict):
             return st.zh["refs_has"][container.owner.t][S(x)]
@@ -1118,6 +1122,13 @@ class Engine:
                 yield ("val", a + b, st); return
             if isinstance(a, (list, tuple)) and type(a) is type(b):
                 yield ("val", a + b, st); return
+            if isinstance(a, list) and a and isinstance(b, SList) and all(isinstance(x, Ref) for x in a):
+                # [x, ...] + L: the concrete prefix followed by the symbolic list
+                k = z3.Int("k!cat")
+                body = b.el[k - len(a)]
+                for idx in reversed(range(len(a))):
+                    body = z3.If(k == idx, a[idx].t, body)
+                yield ("val", SList(len(a) + b.n, z3.Lambda([k], body), b.mk), st); return
             if isinstance(a, SList) and isinstance(b, SList):
                 k = z3.Int("k!cat")
                 yield ("val", SList(a.n + b.n, z3.Lambda([k], z3.If(k < a.n, a.el[k], b.el[k - a.n])), a.mk), st); return
@@ -1266,10 +1277,16 @@ class Engine:
             c = self.contents(o, st)
             lov = S(0 if lo is None else (lo.val if isinstance(lo, Opt) else lo))
             hiv = c.n if hi is None else S(hi.val if isinstance(hi, Opt) else hi)
-            # Python clamps slices; we require the bounds to be in range and make that a side obligation
-            self.obl.append(("%s:slice-bounds-in-range" % self.frames[-1].label, st, z3.And(0 <= lov, lov <= hiv, hiv <= c.n)))
+            # Python clamps the bounds of a slice: negative bounds count from the end, both are brought into [0, n], an empty range is empty
+            def clamp(x):
+                x = z3.If(x < 0, x + c.n, x)
+                return z3.If(x < 0, 0, z3.If(x > c.n, c.n, x))
+            lo2, hi2 = clamp(lov), clamp(hiv)
+            hi2 = z3.If(hi2 < lo2, lo2, hi2)
             k = z3.Int("k!sl")
-            yield ("val", SList(hiv - lov, z3.Lambda([k], c.el[k + lov]), c.mk), st)
+            r = SList(hi2 - lo2, z3.Lambda([k], c.el[k + lo2]), c.mk)
+            r.window = (c.el, lo2)              # the slice as a window [lo, lo+n) of the list it was taken from (membership is then stated over absolute positions)
+            yield ("val", r, st)
             return
         raise Unsupported("slice of %r" % (o,))
 
@@ -1379,6 +1396,20 @@ class Engine:
         if not (isinstance(elt, ast.Call) and isinstance(g.target, ast.Name)):
             raise Unsupported("comprehension over a symbolic list: only constructor maps are supported")
         outs = list(self.expr(elt.func, st))
+        if len(outs) == 1 and outs[0][0] == "val" and outs[0][1] not in self.alloc:
+            # [f(x) for x in L] with f a modelled function of x alone (no allocation, no control flow of its own): the list of the values, pointwise
+            kv = fresh("kx", I)
+            stb = st.bind(g.target.id, lst.mk(lst.el[kv]))
+            o = list(self.expr(elt, stb))
+            if len(o) == 1 and o[0][0] == "val" and len(o[0][2].pc) == len(stb.pc) and o[0][2].zh is stb.zh:
+                v = o[0][1]
+                x = z3.Int("x!map")
+                if isinstance(v, Ref):
+                    yield ("val", SList(lst.n, z3.Lambda([x], z3.substitute(v.t, (kv, x))), lambda t, cls=v.cls: Ref(t, cls)), st)
+                    return
+                if is_sym(v):
+                    yield ("val", SList(lst.n, z3.Lambda([x], z3.substitute(v, (kv, x))), lambda t: t), st)
+                    return
         if len(outs) != 1 or outs[0][0] != "val" or outs[0][1] not in self.alloc:
             raise Unsupported("comprehension over a symbolic list: %s is not an allocatable class" % ast.unparse(elt.func))
         cls = outs[0][1]
